@@ -54,9 +54,9 @@ ASSUMPTIONS = ['vp.models.edscript (script deriver + strict reference interprete
 ANCHORS = ['debian.debian_support:patches_from_ed_script', 'debian.debian_support:patch_lines']
 MUST_REACH = list(ANCHORS)
 
-PAIRS = {'quick': 50000, 'thorough': 3000000}
-MALFORMED = {'quick': 10000, 'thorough': 500000}      # base scripts; each yields 2 corruptions + up to 4 truncations
-DIFFE = {'quick': 1500, 'thorough': 150000}
+PAIRS = {'quick': 50000, 'thorough': 2000000}
+MALFORMED = {'quick': 10000, 'thorough': 350000}      # base scripts; each yields 2 corruptions + up to 4 truncations
+DIFFE = {'quick': 1500, 'thorough': 100000}
 
 FLOORS = {
     'quick': {'nontrivial': 40000,
@@ -68,17 +68,17 @@ FLOORS = {
                            'shape:hunks>=2': 8500, 'reject:truncation': 15000, 'reject:command': 10000,
                            'mode:str': 28000, 'mode:bytes': 28000, 'src:list': 17000, 'src:iter': 17000,
                            'src:file': 17000}},
-    'thorough': {'nontrivial': 1200000,
-                 'monitors': {'M.apply': 3000000, 'M.reject': 2400000},
-                 'counters': {'cmd:a@0': 380000, 'cmd:a@end': 180000, 'cmd:a@mid': 180000, 'cmd:c1': 400000,
-                              'cmd:cN': 220000, 'cmd:d1': 250000, 'cmd:dN': 160000, 'cmd:c@first': 320000,
-                              'cmd:d@first': 220000, 'cmd:d@last': 280000, 'cmd:c@last': 420000,
-                              'shape:adjacent-hunks': 300000, 'shape:old-empty': 160000, 'shape:new-empty': 160000,
-                              'shape:full-replace': 190000, 'shape:hunks>=2': 420000, 'reject:truncation': 750000,
-                              'reject:command': 500000, 'mode:str': 1500000, 'mode:bytes': 1500000,
-                              'src:list': 900000, 'src:iter': 900000, 'src:file': 900000}},
+    'thorough': {'nontrivial': 1100000,
+                 'monitors': {'M.apply': 2100000, 'M.reject': 1750000},
+                 'counters': {'cmd:a@0': 260000, 'cmd:a@end': 120000, 'cmd:a@mid': 135000, 'cmd:c1': 270000,
+                              'cmd:cN': 155000, 'cmd:d1': 165000, 'cmd:dN': 115000, 'cmd:c@first': 230000,
+                              'cmd:d@first': 160000, 'cmd:d@last': 190000, 'cmd:c@last': 290000,
+                              'shape:adjacent-hunks': 165000, 'shape:old-empty': 125000, 'shape:new-empty': 115000,
+                              'shape:full-replace': 140000, 'shape:hunks>=2': 255000, 'reject:truncation': 530000,
+                              'reject:command': 350000, 'mode:str': 1050000, 'mode:bytes': 1050000,
+                              'src:list': 630000, 'src:iter': 630000, 'src:file': 630000}},
 }
-DIFFE_FLOOR = {'quick': 1500, 'thorough': 150000}      # only demanded when `diff` is installed
+DIFFE_FLOOR = {'quick': 1500, 'thorough': 100000}      # only demanded when `diff` is installed
 
 ALPHA = ['a', 'b', 'c', '', 'x y', '..', '. ', ' .', '.x', '...', '1a', '2,3d', 'd', '0a', '3c', '1,2c', 'a.',
          'é', '١a', '\t', 'x\r', '.\r', 's/.//', 'w', 'q']
@@ -468,9 +468,9 @@ def run_case(ctx, case):
 
 
 LEVEL_TEXT = ('Runtime monitoring: patch_lines(lines, patches_from_ed_script(S)) of the live tree is executed on 5.7e4 (quick) '
-              '/ 3.2e6 (thorough) (old, new) pairs, as str and as bytes, with S derived independently (difflib opcodes -> '
+              '/ 2.1e6 (thorough) (old, new) pairs, as str and as bytes, with S derived independently (difflib opcodes -> '
               'a/c/d in descending order; `diff -e` output) and handed over as list, iterator and file object; the mutated '
-              'list is compared with new.  5e4 / 2.5e6 scripts with exactly one corrupted command or a text block cut '
+              'list is compared with new.  5e4 / 1.75e6 scripts with exactly one corrupted command or a text block cut '
               'before its "." must raise ValueError.  A complete sub-space (old <= 4 lines, new <= 5 lines) is enumerated. '
               'Held-on-observed, not a proof.')
 LEVEL_NOTE = ('Trusted: CPython, difflib, vp.models.edscript (deriver + strict reference interpreter; every script is '
